@@ -106,8 +106,13 @@ def stepLineCap (s : CapSession) (line : String) : CapSession × String :=
         | "apply", aop :: u :: rest =>
           -- operators that do not quantify go through ONE `self.ite`; the quantifier aliases
           -- call `quantify`, which has no capacity-aware model: refused here, never compared
-          if old then (s, "err OtherError") else
           if isQuantOp aop then (s, "err NO-CAPACITY-MODEL") else
+          if old then
+            (match parseInt? u, rest.mapM parseInt? with
+            | some u, some [] => runCapOn s id sched (DRes.int <$> applyG (iteCapO cap) quantify aop u none none) (DRes.int <$> applyG (iteCapO cap) quantify aop u none none)
+            | some u, some [v] => runCapOn s id sched (DRes.int <$> applyG (iteCapO cap) quantify aop u (some v) none) (DRes.int <$> applyG (iteCapO cap) quantify aop u (some v) none)
+            | some u, some [v, w] => runCapOn s id sched (DRes.int <$> applyG (iteCapO cap) quantify aop u (some v) (some w)) (DRes.int <$> applyG (iteCapO cap) quantify aop u (some v) (some w))
+            | _, _ => (s, "err OtherError")) else
           match parseInt? u, rest.mapM parseInt? with
           | some u, some [] => runCapOn s id sched (DRes.int <$> applyCapL cap aop u none none) (DRes.int <$> applyCap cap aop u none none)
           | some u, some [v] => runCapOn s id sched (DRes.int <$> applyCapL cap aop u (some v) none) (DRes.int <$> applyCap cap aop u (some v) none)
